@@ -2,6 +2,7 @@ package props
 
 import (
 	"fmt"
+	"regexp"
 	"sort"
 	"testing"
 	"time"
@@ -88,12 +89,32 @@ func evalC05One(q prog.Program) Outcome {
 	// With a deferred retry the client misses one pull, so later edits are
 	// made on a different state and with different clocks than in the
 	// fault-free run: only the in-run oracles apply there.
-	if !deferred && res.Ordered && ref.Ordered && last(res.Contents) != last(ref.Contents) {
-		out.Fail = &prog.Failure{Kind: "FAULT-CHANGES-CONTENT", Msg: "content after fault+retry differs from the fault-free run:\nfaulted:    " +
-			last(res.Contents) + "\nfault-free: " + last(ref.Contents)}
+	if !deferred {
+		out.Fail = c05Differs(res, ref)
 	}
 	out.NonTrivial = out.Ev["fault_fired"] > 0
 	return out
+}
+
+var c05Counter = regexp.MustCompile(`"c":(-?[0-9]+)`)
+
+// c05Differs compares the outcome of a faulted run with the fault-free twin.
+// Counter increments commute, so the counter value must be equal whatever the
+// clocks are (each increase counted exactly once). The full content is only
+// comparable when neither run contains concurrent changes: a retry can be
+// answered differently (e.g. by a snapshot), which legitimately shifts the
+// client's lamport clock and with it the outcome of later last-writer-wins races.
+func c05Differs(faulted, ref prog.Result) *prog.Failure {
+	a, b := last(faulted.Contents), last(ref.Contents)
+	if ca, cb := c05Counter.FindStringSubmatch(a), c05Counter.FindStringSubmatch(b); ca != nil && cb != nil && ca[1] != cb[1] {
+		return &prog.Failure{Kind: "FAULT-CHANGES-COUNTER", Msg: "counter after fault+retry is " + ca[1] + ", in the fault-free run " + cb[1] +
+			" (an increase was lost or applied twice)\nfaulted:    " + a + "\nfault-free: " + b}
+	}
+	if faulted.Ev["concurrent_pairs"] == 0 && ref.Ev["concurrent_pairs"] == 0 && faulted.Ordered && ref.Ordered && a != b {
+		return &prog.Failure{Kind: "FAULT-CHANGES-CONTENT", Msg: "content after fault+retry differs from the fault-free run (no concurrent changes in either):\nfaulted:    " +
+			a + "\nfault-free: " + b}
+	}
+	return nil
 }
 
 type faultPoint struct {
@@ -201,9 +222,8 @@ func TestC05(t *testing.T) {
 			// sync of that client, after possibly further edits
 			st.B = int((sel >> uint(k%60)) & 1)
 			out, res := runFaulted(q)
-			if out.Fail == nil && st.B == 0 && res.Ordered && ref.Ordered && last(res.Contents) != last(ref.Contents) {
-				out.Fail = &prog.Failure{Kind: "FAULT-CHANGES-CONTENT", Msg: "content after fault+retry differs from the fault-free run:\nfaulted:    " +
-					last(res.Contents) + "\nfault-free: " + last(ref.Contents)}
+			if out.Fail == nil && st.B == 0 {
+				out.Fail = c05Differs(res, ref)
 			}
 			cls := map[string]int{"fault_fired": out.Ev["fault_fired"], "fault_not_reached": out.Ev["fault_not_reached"],
 				"fault_tolerated_by_server": out.Ev["fault_tolerated_by_server"]}
